@@ -43,6 +43,7 @@ fn main() {
         "digest" => digest(&args),
         "export" => export(&args),
         "cold-one" => cold_one(&args),
+        "selftest-model" => selftest_model(),
         "cold-exec" => cold_exec(&args),
         "c14" => sim::bcrypt::main(&args),
         "c16" => sim::residue::main(&args),
@@ -595,4 +596,59 @@ fn cold_phase(prop: Prop, seed: u64, total: u64, workers: u64, known_path: &str,
     out.digests.dedup();
     out.wall = t0.elapsed().as_secs_f64();
     out
+}
+
+/// Cross-check the five-intrinsic aarch64 model against this host's AES-NI instructions.
+fn selftest_model() {
+    #[cfg(target_arch = "x86_64")]
+    {
+        use core::arch::x86_64::*;
+        use sim::verif_neon_model as m;
+        if !std::arch::is_x86_feature_detected!("aes") {
+            println!("selftest-model: host has no AES-NI, skipped");
+            return;
+        }
+        #[target_feature(enable = "aes")]
+        unsafe fn ni(x: [u8; 16], k: [u8; 16]) -> ([u8; 16], [u8; 16], [u8; 16], [u8; 16]) {
+            unsafe {
+                let xv: __m128i = core::mem::transmute(x);
+                let kv: __m128i = core::mem::transmute(k);
+                let z = _mm_setzero_si128();
+                // AESE(x,k) = SubBytes(ShiftRows(x^k)) = aesenclast(x^k, 0)
+                let e = _mm_aesenclast_si128(_mm_xor_si128(xv, kv), z);
+                let d = _mm_aesdeclast_si128(_mm_xor_si128(xv, kv), z);
+                // MixColumns(y) = aesenc(InvShiftRows(InvSubBytes(y)), 0): use aesdeclast to pre-invert
+                let mc = _mm_aesenc_si128(_mm_aesdeclast_si128(xv, z), z);
+                let imc = _mm_aesimc_si128(xv);
+                (core::mem::transmute(e), core::mem::transmute(d), core::mem::transmute(mc), core::mem::transmute(imc))
+            }
+        }
+        let mut rng = sim::prng::Prng::new(7);
+        for i in 0..100_000 {
+            let mut x = [0u8; 16];
+            let mut k = [0u8; 16];
+            rng.fill(&mut x);
+            rng.fill(&mut k);
+            if i == 0 {
+                x = [0; 16];
+                k = [0; 16];
+            }
+            let (e, d, mc, imc) = unsafe { ni(x, k) };
+            if m::aese(x, k) != e || m::aesd(x, k) != d || m::aesmc(x) != mc || m::aesimc(x) != imc {
+                die("the aarch64 intrinsic model disagrees with AES-NI");
+            }
+        }
+        // tbl4
+        let tab = [[1u8; 16], [2; 16], [3; 16], [4; 16]];
+        let mut ix = [0u8; 16];
+        for (i, v) in ix.iter_mut().enumerate() {
+            *v = (i * 17) as u8;
+        }
+        let o = m::tbl4(tab, ix);
+        for i in 0..16 {
+            let j = ix[i] as usize;
+            assert_eq!(o[i], if j < 64 { (j / 16 + 1) as u8 } else { 0 });
+        }
+        println!("selftest-model: aese/aesd/aesmc/aesimc agree with AES-NI on 100000 random inputs; tbl4 ok");
+    }
 }
